@@ -58,6 +58,11 @@ def gen_specs(rng, regs, depth, counter):
   for _ in range(rng.randint(1, 5 if depth == 0 else 3)):
     r = rng.random()
     reg = rng.choice(regs)
+    prev = [sp for sp in specs if sp[0] == 'bind']
+    if prev and rng.random() < 0.2:
+      # the same parameter set again, to an equal value, by a later statement: that statement is its setter now
+      specs.append(rng.choice(prev))
+      continue
     cls = [n for n, k in G.param_classes(reg).items() if k == 'valid']
     scope = '/'.join(rng.choice([[], ['a'], ['a', 'b']]))
     if r < 0.45 and cls:
